@@ -906,7 +906,9 @@ class ResultHandler(PoolThread):
                 return
 
             if not item.ready():
-                if putlock is not None:
+                # (only apply_async() takes a slot: the parts of a map or
+                # imap job have none to give back)
+                if putlock is not None and i is None:
                     putlock.release()
             try:
                 item._set(i, obj)
